@@ -91,7 +91,7 @@ def run_case(case):
     import websocket
 
     obs = Obs()
-    sched = simkit.Sched(choices=case.get("choices", []), preempt=case.get("preempt"), preempt_at=case.get("preempt_at"), horizon=400.0, repo=REPO, max_steps=800000)
+    sched = simkit.Sched(choices=case.get("choices", []), preempt=case.get("preempt"), preempt_at=case.get("preempt_at"), fallback=case.get("fallback", 0), horizon=400.0, repo=REPO, max_steps=800000)
     net = simkit.SimNet(sched)
     runs = case["runs"]
     attempts, expect = [], []
